@@ -11,20 +11,34 @@ Theorem C04_motor_clamp : forall p ops m, Forall dev_ok (fst (dmrun p m ops)).
 Proof. exact motor_clamp. Qed.
 Print Assumptions C04_motor_clamp.
 
-(* the expected refutation: motor.set_speed(0.001); motor.get_mode() - host "drive", device "coast" *)
-Theorem C04_motor_tiny_speed_mode_refuted : exists p m ops,
-  snd (dmrun p dminit ops) <> snd (fst (hmrun p m ops)).
-Proof.
-  exists (4, 5, 6)%Z, (m0 (4, 5, 6)%Z), tiny_ops.
-  destruct motor_tiny_mode_differs as [-> ->]. discriminate.
-Qed.
-Print Assumptions C04_motor_tiny_speed_mode_refuted.
+(* the witness of the former finding F-C04-motor-tiny-speed-mode (repaired: the firmware's direction pins and mode now depend
+   on the applied speed being non-zero, not on the PWM count): motor.set_speed(0.001); get_mode(); invert(); get_mode();
+   get_applied_speed(); set_speed(0); get_mode() - "drive", "drive", -0.001, "coast" on both sides *)
+Example C04_motor_tiny_speed_mode_agrees :
+  snd (dmrun (4, 5, 6)%Z dminit tiny_ops) = [GNone; GMode Drive; GNone; GMode Drive; GFloat (-1 # 1000); GNone; GMode Coast] /\
+  snd (fst (hmrun (4, 5, 6)%Z (m0 (4, 5, 6)%Z) tiny_ops)) = snd (dmrun (4, 5, 6)%Z dminit tiny_ops).
+Proof. exact motor_tiny_mode_agrees. Qed.
+Print Assumptions C04_motor_tiny_speed_mode_agrees.
 
-(* ... and the pins: the host drives forward at duty 0.255, the device leaves all three pins LOW *)
-Theorem C04_motor_tiny_speed_signal_refuted : exists p m ops,
-  canon (map dconv (fst (dmrun p dminit ops))) <> canon (fst (fst (hmrun p m ops))).
-Proof. exists (4, 5, 6)%Z, (m0 (4, 5, 6)%Z), tiny_ops. exact motor_tiny_signal_differs. Qed.
-Print Assumptions C04_motor_tiny_speed_signal_refuted.
+(* ... and the pins: forward (IN1 HIGH) at PWM count 0, then reverse (IN2 HIGH) at count 0, then coast - on both sides *)
+Example C04_motor_tiny_speed_signal_agrees :
+  map dconv (fst (dmrun (4, 5, 6)%Z dminit tiny_ops)) =
+    [TL 4 255; TL 5 0; TL 6 0; TL 4 0; TL 5 255; TL 6 0; TL 4 0; TL 5 0; TL 6 0]%Z /\
+  fst (fst (hmrun (4, 5, 6)%Z (m0 (4, 5, 6)%Z) tiny_ops)) = map dconv (fst (dmrun (4, 5, 6)%Z dminit tiny_ops)).
+Proof. exact motor_tiny_signal_agrees. Qed.
+Print Assumptions C04_motor_tiny_speed_signal_agrees.
+
+(* the positive fact the refutations contradicted, for ALL values and states: after any drive change the firmware's mode is
+   "coast" exactly when the speed it applies is zero (the host's rule), whatever the PWM count *)
+Theorem C04_motor_mode_follows_applied_speed : forall p d store v any,
+  let eff := eff_of (dm_inv d) (Qred (qclamp (-(1)) 1 v)) in
+  dm_mode (fst (d_apply p d store v)) = (if Qeqb eff 0 then Coast else Drive) /\
+  map dconv (snd (d_apply p d store v)) = hmconv p (MLvl any eff (if Qeqb eff 0 then Coast else Drive)).
+Proof.
+  intros p d store v any eff. destruct (d_apply_spec p d store v any) as [S1 S2]. fold eff in S1, S2.
+  split; [rewrite S1; reflexivity|exact S2].
+Qed.
+Print Assumptions C04_motor_mode_follows_applied_speed.
 
 (* non-vacuity of the guard of C04_motor_partial: an in-guard history through every command *)
 Example C04_motor_guard_inhabited :
@@ -35,8 +49,8 @@ Proof. exact motor_demo_agrees. Qed.
 Print Assumptions C04_motor_guard_inhabited.
 
 (* C04_motor_partial: device = host for ALL motor commands (set_speed, backward, stop, coast, invert, ramp, run_for, the four
-   getters) and all histories inside the guard motor_guard_flags: speeds numbers within -1..1, durations numbers >= 0, and no
-   speed the command applies has 0 < |x| < 1/510 (the refutations above show this conjunct is needed).  Then the firmware's
+   getters) and all histories inside the guard motor_guard_flags: speeds numbers within -1..1, durations numbers >= 0 (speeds of
+   any magnitude: the former conjunct "no applied speed with 0 < |x| < 1/510" is gone with the repair).  Then the firmware's
    digitalWrite / analogWrite / delay events ARE, event by event, the host's level signal on the three pins - direction pins from
    the sign of the applied speed (brake: both HIGH), duty = the PWM count nearest to 255*|applied| (C04_motor_duty_nearest: within
    half a count, the statement allows one), each host sleep q as delay(trunc q) (C04_motor_delay_within_1ms) - every getter
